@@ -1,6 +1,6 @@
 SPECIFICATION Spec
 CONSTANTS W = {1}
 INVARIANT Inv
-PROPERTY ErrUnchanged
-CHECK_DEADLOCK FALSE
+PROPERTIES ErrUnchanged FreshIndex
 VIEW MCView
+CHECK_DEADLOCK FALSE
